@@ -472,4 +472,27 @@ OpenShx(x) ==
                   IN  IF ~Has(x, 100, 8 * n) THEN [ok |-> FALSE, err |-> "io", entries |-> << >>]
                       ELSE [ok |-> TRUE, err |-> "", entries |-> RdIndex(x, 100, n)]
 
+\* what a reader sees on the persisted pair (shpB, shxB or NoIndex): [openErr, items, err]
+ReadFile(shpB, useIndex, shxB) ==
+    LET o == OpenShp(shpB)
+        x == IF useIndex THEN OpenShx(shxB) ELSE [ok |-> TRUE, err |-> "", entries |-> << >>]
+    IN  IF ~x.ok THEN [openErr |-> x.err, items |-> << >>, err |-> ""]
+        ELSE IF ~o.ok THEN [openErr |-> o.err, items |-> << >>, err |-> ""]
+        ELSE LET r == IF useIndex THEN IdxIter(shpB, x.entries, 1, -1, << >>)
+                      ELSE IF DeclaredBytes(shpB) < 0 THEN [items |-> << >>, err |-> "nonconformant", code |-> 0]
+                      ELSE SeqIter(shpB, 100, DeclaredBytes(shpB), -1, << >>)
+             IN  [openErr |-> "", items |-> r.items, err |-> r.err]
+
+\* the relation C11 states between what was written and what a reader returns
+\* (items = shapes returned before the first error)
+ItemsArePrefix(items, W) ==
+    /\ Len(items) <= Len(W)
+    /\ \A i \in 1..Len(items) : ReadBackRel(W[i], items[i].shape, FALSE)
+
+
+\* two decodings of the same bytes agree (the reader model does not name ring roles)
+SameRead(ms, rs) ==
+    /\ ms.t = rs.t /\ ms.parts = rs.parts /\ ms.box = rs.box
+    /\ (ms.t = 31 => ms.kinds = rs.kinds)
+
 =============================================================================
